@@ -316,7 +316,7 @@ func runC35(c *eng.Ctx) {
 				c.Check("R7", nx.Where(), "the "+arm+" arm restarts the exemplar cursor before it moves to the next metric", i1 >= 0 && i2 >= 0 && i1 < i2, p.Pos(cl.Pos()), "")
 			}
 		}
-			// the decision "this histogram is handled as a classic one" is one predicate, everywhere
+		// the decision "this histogram is handled as a classic one" is one predicate, everywhere
 		nSites := 0
 		for _, fn := range []string{"ProtobufParser.Next", "ProtobufParser.Histogram"} {
 			f := c.Fn(T + fn)
@@ -342,5 +342,5 @@ func runC35(c *eng.Ctx) {
 			})
 		}
 		c.Check("R7", T+"ProtobufParser", "sites deciding classic vs native (4 confirmed by reading)", nSites >= 4, "", fmt.Sprint(nSites))
-}
+	}
 }
